@@ -58,6 +58,11 @@ def check_elements(ctx, tr, res, pat_text, fn, absolute, trail, single, wit, mix
 
 def run_modes(ctx, tr, pats, fn, flags, kw, wit, compare_roots=True):
     root = tr.root
+    # (created before anything is globbed: a tree with a link to `..` shows the root's parent directory to the patterns)
+    sub = next((n for n in sorted(os.listdir(root)) if os.path.isdir(os.path.join(root, n)) and not os.path.islink(os.path.join(root, n))), None)
+    via = os.path.join(os.path.dirname(root), 'via-link')
+    if sub is not None and compare_roots and not os.path.lexists(via):
+        os.symlink(os.path.join(os.path.basename(root), sub), via)
     base = G.glob(pats, flags=flags, root_dir=root, **kw)
     it = list(G.iglob(pats, flags=flags, root_dir=root, **kw))
     ctx.evals()
@@ -99,6 +104,22 @@ def run_modes(ctx, tr, pats, fn, flags, kw, wit, compare_roots=True):
         results['chdir'] = f'raised {type(e).__name__}'
     finally:
         os.chdir(cwd)
+    # other spellings of the same directory: a trailing separator, a `.` segment, and `..` behind a symlink that lives elsewhere
+    # (`via/..` is the root itself although it reads like the root's parent)
+    spellings = {'root_dir with a trailing separator': root + '/', 'root_dir ending in /.': root + '/.'}
+    if sub is not None:
+        if os.path.realpath(via) == os.path.realpath(os.path.join(root, sub)):
+            spellings['root_dir spelled <link elsewhere>/..'] = via + '/..'
+            spellings['root_dir spelled <link elsewhere>/../ as bytes'] = os.fsencode(via + '/../')
+    for what, rd in spellings.items():
+        try:
+            if isinstance(rd, bytes):
+                results[what] = [os.fsdecode(p) for p in G.glob(enc(pats), flags=flags, root_dir=rd, **{k: enc(v) for k, v in kw.items()})]
+            else:
+                results[what] = G.glob(pats, flags=flags, root_dir=rd, **kw)
+        except Exception as e:  # noqa: BLE001
+            results[what] = f'raised {type(e).__name__}'
+        ctx.count('root_spelling_runs')
     for mode, r in results.items():
         ctx.evals()
         ctx.count('root_mode_comparisons')
